@@ -35,6 +35,7 @@ tvars == <<case, i, np>>
 SetOf(s) == {s[k] : k \in 1..Len(s)}
 Ev == Trace[case].ev
 RegNum(c) == Trace[case].regnum[c]
+Shift == Trace[case].shift          \* result kinds of this case: KindAt(Shift, marker)
 LazyCallers == SetOf(Trace[case].lazy)
 
 \* the caller whose reg event carries the number the counter produces next
@@ -63,12 +64,15 @@ EventStep(e) ==
                            /\ ReaderLookup /\ e.found = (rd.id \in PendIds) /\ PendIds = SetOf(e.pend)
       [] e.e = "del"    -> Do(Lab("del", e.w)) /\ e.id = MyId(e.w) /\ PendIds' = SetOf(e.pend)
       [] e.e = "cancel" -> IF pc[e.w] = "done" \/ cancelled[e.w] THEN UNCHANGED vars ELSE Do(Lab("cancel", e.w))
-      [] e.e = "reply"  -> Do(Lab("reply", e.w)) /\ e.id = MyId(e.w)   \* the request the peer answers carried the registered id
+      [] e.e = "reply"  -> /\ Do(Lab("reply", e.w)) /\ e.id = MyId(e.w)   \* the request the peer answers carried the registered id
+                           /\ e.k = KindAt(Shift, e.w)                  \* ... and is answered with the kind of result the spec gives it
       [] e.e = "pnotify" -> Do(Lab("pnotify", 0))
       [] e.e = "pcall"  -> \E k \in 1..Len(PeerCallIdSeq) : PeerCallIdSeq[k] = e.id /\ Do(Lab("pcall", k))
       [] e.e = "stray"  -> \E k \in 1..Len(StrayIdSeq) : StrayIdSeq[k] = e.id /\ Do(Lab("stray", k))
-      [] e.e = "pong"   -> np < Len(pongs) /\ pongs[np + 1] = e.id /\ UNCHANGED vars   \* what the peer received
-      [] e.e = "ret"    -> pc[e.w] = "done" /\ result[e.w] = e.res /\ UNCHANGED vars
+      [] e.e = "pong"   -> /\ np < Len(pongs) /\ pongs[np + 1] = e.id /\ UNCHANGED vars   \* what the peer received
+                           /\ e.k = KindAt(Shift, np + 1)      \* the handler's j-th answer arrives with its kind (null stays "result":null)
+      [] e.e = "ret"    -> /\ pc[e.w] = "done" /\ result[e.w] = e.res /\ UNCHANGED vars
+                           /\ (e.res >= 1 => e.k = KindAt(Shift, e.res))   \* Call hands over the kind of result the response carried
       [] OTHER          -> FALSE
 
 Consume == /\ i <= Len(Ev) /\ EventStep(Ev[i]) /\ i' = i + 1 /\ case' = case
